@@ -221,6 +221,10 @@ class C06(HistoryCampaign):
             files["trajectory"] = {"name": "traj.xyz", "as": "object", "mode": "a"}
         sc["files"] = files
         sc["fresh"] = rnd.random() < (0.03 if tier == "quick" else 0.05)
+        if len(sc.get("exchange", {}).get("arrays", {})) >= 2 and "trajectory" in files:
+            # per-atom arrays created during the run and written to the trajectory: their order must be the same in
+            # every process (seeded C06-5: set iteration over strings follows PYTHONHASHSEED)
+            sc["fresh"] = rnd.random() < 0.5
         sc["hashseed"] = rnd.randint(1, 4000)
         return sc
 
